@@ -15,6 +15,19 @@ def run(ctx, rep):
         rep.floor("bucket_readers", len(w.roles.bucket_readers), 2 if is_async else 1, cfg)
         for p in w.roles.bucket_readers:
             check_reader(cfg, w, rep, w.prog.fns[p])
+        # (d) containment relies on every operation leaving its OWN record: a removal that skips its tombstone because "the key is
+        #     absent anyway" makes that absence hang on one earlier record — damage to that single record then revives the entry,
+        #     i.e. it affects more than the damaged record (C09's lower bound, re-checked)
+        from ..framework import Report
+        from . import c09
+        sub = Report("C09")
+        c09.check_removal_effects(cfg, w, sub)
+        for (c_, rule, k, desc, ok) in sub.obligations:
+            if rule == "lower-bound" and ok:
+                rep.ob(cfg, "d/" + rule, k, desc)
+        for k, v in sub.violations.items():
+            if v.rule == "lower-bound":
+                rep.violation("d:%s" % k, "damage to one record could change more than that record — " + v.msg, loc=v.loc, config=cfg, rule="d/lower-bound")
     return rep
 
 
@@ -133,9 +146,20 @@ def check_reader(cfg, w, rep, lf):
                     else:
                         okr = False
             ok = okr and n_vec >= 1
+    if ok and len(pushes) == 1:
+        vec = prog.resolve_op(body, pushes[0][2].args[0], IDENT, pushes[0][1].i)
+        for blk_, t_ in body.calls():
+            if t_.callee is not None and t_.args and inplace_call(t_.callee.path) and not t_.callee.path.endswith("::push"):
+                a0 = prog.resolve_op(body, t_.args[0], OKFLOW, blk_.i)
+                if a0 and vec and (a0 & vec):
+                    ok = False
+                    rep.violation("c-order:%s" % key,
+                                  "bucket reader `%s` changes the collected records in place (`%s`) before returning them: their order is the "
+                                  "file order that lookups and the listing rely on" % (short(lf.path), t_.callee.path.rsplit("::", 1)[-1]),
+                                  loc=span_str(t_.span), config=cfg, rule="c-collects-validated")
     if ok:
         rep.ob(cfg, "c-collects-validated", key, "`%s` returns exactly the records that passed the checksum and parsed" % short(lf.path))
-    else:
+    elif not any(k_.startswith("c-order:") for k_ in rep.violations):
         rep.violation("c-collect:%s" % key, "bucket reader `%s` does not return exactly the vector of validated records" % short(lf.path),
                       loc=body.loc(), config=cfg, rule="c-collects-validated")
 
